@@ -268,6 +268,75 @@ pub fn enumerate(n_max: usize, mut f: impl FnMut(NlCase)) {
     }
 }
 
+/// Invocations with every argument tuple drawn from the context with repetition, *including the
+/// invoked closure itself* (self application), for contexts of n integers/closures.
+pub fn enumerate_invoke(n_max: usize, mut f: impl FnMut(NlCase)) {
+    let types = std_types();
+    let cb = |n: usize| ContextBinding { var: id("c", n), chi: Chirality::Cns, ty: ty("Rec") };
+    for n in 1..=n_max {
+        for kinds in 0..(1u32 << n) {
+            let is_clo: Vec<bool> = (0..n).map(|i| kinds >> i & 1 == 1).collect();
+            let clos: Vec<usize> = (0..n).filter(|i| is_clo[*i]).collect();
+            let ints: Vec<usize> = (0..n).filter(|i| !is_clo[*i]).collect();
+            if clos.is_empty() || ints.is_empty() {
+                continue;
+            }
+            for &callee in &clos {
+                for &farg in &clos {
+                    for &xarg in &ints {
+                        // which integers each closure captures: closure j captures the integers before it
+                        let mut ids = Ids(100);
+                        let stmt: Statement = Invoke { var: id("c", callee + 1), tag: ident("run"), ty: ty("Rec"), args: ctx(vec![cb(farg + 1), ib(xarg + 1)]) }.into();
+                        let mut body = stmt;
+                        for i in (0..n).rev() {
+                            if is_clo[i] {
+                                let (pf, px) = (ids.fresh(), ids.fresh());
+                                // method: print x, print a mark of this closure, print captured integers, then
+                                // invoke the closure it received once more with x - 1 while x > 0
+                                let mark = ids.fresh();
+                                let one = ids.fresh();
+                                let dec = ids.fresh();
+                                let again: Statement = Invoke { var: id("f", pf), tag: ident("run"), ty: ty("Rec"), args: ctx(vec![ContextBinding { var: id("f", pf), chi: Chirality::Cns, ty: ty("Rec") }, ib(dec)]) }.into();
+                                let stop: Statement = Exit { var: id("v", mark) }.into();
+                                let mut mbody: Statement = IfC { sort: IfSort::Greater, fst: id("v", px), snd: None, thenc: Rc::new(again), elsec: Rc::new(stop) }.into();
+                                mbody = Op { fst: id("v", px), op: BinOp::Sub, snd: id("v", one), var: id("v", dec), next: Rc::new(mbody), free_vars_next: None }.into();
+                                mbody = Literal { lit: 1, var: id("v", one), next: Rc::new(mbody), free_vars_next: None }.into();
+                                for j in (0..i).rev() {
+                                    if !is_clo[j] {
+                                        mbody = PrintI64 { newline: true, var: id("v", j + 1), next: Rc::new(mbody), free_vars_next: None }.into();
+                                    }
+                                }
+                                mbody = PrintI64 { newline: false, var: id("v", mark), next: Rc::new(mbody), free_vars_next: None }.into();
+                                mbody = Literal { lit: 100 * (i as i64 + 1), var: id("v", mark), next: Rc::new(mbody), free_vars_next: None }.into();
+                                mbody = PrintI64 { newline: false, var: id("v", px), next: Rc::new(mbody), free_vars_next: None }.into();
+                                body = Create {
+                                    var: id("c", i + 1),
+                                    ty: ty("Rec"),
+                                    context: None,
+                                    clauses: vec![Clause {
+                                        xtor: ident("run"),
+                                        context: ctx(vec![ContextBinding { var: id("f", pf), chi: Chirality::Cns, ty: ty("Rec") }, ib(px)]),
+                                        body: Rc::new(mbody),
+                                    }],
+                                    free_vars_clauses: None,
+                                    next: Rc::new(body),
+                                    free_vars_next: None,
+                                }
+                                .into();
+                            } else {
+                                body = Literal { lit: 2 + i as i64, var: id("v", i + 1), next: Rc::new(body), free_vars_next: None }.into();
+                            }
+                        }
+                        let mut p = prog(vec![def("main", vec![], body)], types.clone());
+                        p.max_id = 100_000;
+                        f(NlCase { name: format!("nlinv/n{n}/k{kinds}/c{callee}/f{farg}/x{xarg}"), prog: p, args: vec![] });
+                    }
+                }
+            }
+        }
+    }
+}
+
 /// Replaces the final `lit z; exit z` of an observation chain by `tail`.
 fn push_before_exit(s: Statement, tail: Statement) -> Statement {
     match s {
